@@ -237,13 +237,18 @@ func BuildXMP(items []XItem, rng *rand.Rand, junk int, arrays bool) XMPPacket {
 		for _, a := range []struct{ p, kind string }{{"dc:creator", "Seq"}, {"dc:subject", "Bag"}} {
 			n := rng.Intn(5)
 			var vals []string
-			sb.WriteString("\n   <" + a.p + ">\n    <rdf:" + a.kind + ">")
+			// the white space between the array's tags follows the record's white-space class (long runs included)
+			sep := "\n     "
+			if len(items) > 0 && strings.HasPrefix(items[0].WS, "run") {
+				sep = ws(items[0].WS)
+			}
+			sb.WriteString("\n   <" + a.p + ">" + sep + "<rdf:" + a.kind + ">")
 			for i := 0; i < n; i++ {
 				v := xmpText(rng, 1+rng.Intn(40))
 				vals = append(vals, v)
-				sb.WriteString("\n     <rdf:li>" + v + "</rdf:li>")
+				sb.WriteString(sep + "<rdf:li>" + v + "</rdf:li>")
 			}
-			sb.WriteString("\n    </rdf:" + a.kind + ">\n   </" + a.p + ">")
+			sb.WriteString(sep + "</rdf:" + a.kind + ">" + sep + "</" + a.p + ">")
 			if vals == nil {
 				vals = []string{}
 			}
